@@ -37,6 +37,7 @@ type Bucket struct {
 	collections     collectionsMap // Collections, indexed by DataStoreName
 	collectionFeeds map[sgbucket.DataStoreNameImpl][]*dcpFeed
 	mutex           *sync.Mutex    // mutex for synchronized access to Bucket
+	postMutex       *sync.Mutex    // makes "commit a mutation, then post its event" one step; see withNewCas
 	sqliteDB        *sql.DB        // SQLite database handle (do not access; call db() instead)
 	expManager      *expiryManager // expiration manager for bucket
 	serial          uint32         // Serial number for logging
@@ -169,6 +170,7 @@ func OpenBucket(urlStr string, bucketName string, mode OpenMode) (b *Bucket, err
 		collections:     make(map[sgbucket.DataStoreNameImpl]*Collection),
 		collectionFeeds: make(map[sgbucket.DataStoreNameImpl][]*dcpFeed),
 		mutex:           &sync.Mutex{},
+		postMutex:       &sync.Mutex{},
 		inMemory:        inMemory,
 		serial:          serial,
 	}
@@ -388,6 +390,7 @@ func (b *Bucket) copy() *Bucket {
 		collectionFeeds: b.collectionFeeds,
 		collections:     make(collectionsMap),
 		mutex:           b.mutex,
+		postMutex:       b.postMutex,
 		sqliteDB:        b.sqliteDB,
 		expManager:      b.expManager,
 		serial:          b.serial,
